@@ -784,7 +784,7 @@ func (e *Env) locOfInner(x *CE) loc {
 		case "allelems":
 			// allelems(T): every element of every []T
 			a := x.Args[1]
-			if a.Op == "ident" {
+			if a.Op == "ident" || a.Op == "type" {
 				ty, _ := g.resolveType(a.Name)
 				if ty != nil {
 					return loc{heap: g.elemHeapOf(ty), all: true}
